@@ -683,10 +683,3 @@ Proof.
   intros H. destruct pool_len_count_false as [ops Hops]. apply Hops, H.
 Qed.
 
-Print Assumptions pool_get_fresh.
-Print Assumptions pool_alive_exact.
-Print Assumptions pool_reserved_dead.
-Print Assumptions pool_len_count_partial.
-Print Assumptions pool_removed_stays_dead.
-Print Assumptions gen_wraps.
-Print Assumptions pool_len_count_unprovable.
